@@ -730,6 +730,12 @@ func BuildRequest(w *World, t *Task, m *MsgSpec) (*http.Request, *Sent, error) {
 	if sb != nil {
 		req.ContentLength = int64(len(s.Body))
 		req.Body = sb
+		if m.Style.Chunked {
+			// Transfer-Encoding: chunked (or HTTP/2 without content-length): net/http reports the length as unknown
+			req.ContentLength = -1
+			req.TransferEncoding = []string{"chunked"}
+			w.probe("body_of_unknown_length")
+		}
 	}
 	s.Summary = fmt.Sprintf("%s %s host=%s id=%q conformant=%v(%s)", s.Method, s.Path, s.Host, s.ReqID, s.Conformant, s.WhyNot)
 	return req, s, nil
@@ -890,6 +896,12 @@ func (w *World) encodeFrontChannel(t *Task, m *MsgSpec, sp *SPNode, s *Sent, xml
 		s.SignedKey = kp.Idx
 		if kp.Idx != sp.Cfg.Key || !sp.Cfg.HasCert {
 			w.notConformant(s, "signed with a key that is not registered")
+		}
+		if now := time.Now(); binding == "post" && (now.Before(kp.Cert.NotBefore) || now.After(kp.Cert.NotAfter)) {
+			// whether a receiver honours the validity period of a pinned certificate is its own policy: such a request is not
+			// among those C07 demands to be accepted (a forged one must of course still be refused)
+			w.notConformant(s, "registered certificate outside its validity period")
+			w.probe("signed_with_certificate_outside_validity")
 		}
 	} else if kind == EPSSO && w.signingRequired(sp) {
 		w.notConformant(s, "unsigned although signing is required")
